@@ -3,6 +3,7 @@ import AdfObdd.CliFaithful
 import AdfObdd.CliModesProofs
 import AdfObdd.CliWorldProofs
 import AdfObdd.CliCounter
+import AdfObdd.CliIOProofs
 import AdfObdd.CliHalt
 import AdfObdd.HybridCli
 import AdfObdd.NatLexOrder
@@ -639,8 +640,12 @@ example : CliMP.sortedNames CliM.drvWorld.anSort .an
 * rejection branches of `runText`: since review 2 the harness hands the malformed TEXT of every `clibad`
   request to the driver (`clibadrun`), which answers with `CliM.runText` on it; `rejects_malformed_text`
   is thereby executed against the binary (before: the constant answer `rejected`).
-* NOT modelled: `--import`, `--export` (naive arm; an uncreatable export path exits with 101 AFTER the
-  sections were printed), `--counter` beyond `counter_adds_at_most_one_line`, a quoted label containing a
+* `--import`, `--export`: modelled since review 3 in `CliM.runTextIO` (CliIO.lean: the binary with a
+  file-system snapshot), an extension of `runText` (`io_without_options_is_runText` below); the
+  persistence theorems about it are in `Props/C14.lean`. (The export happens BEFORE the sections are
+  printed: an uncreatable export path - not modelled, the snapshot has no directories - exits with 101
+  and EMPTY stdout.)
+* NOT modelled: `--counter` beyond `counter_adds_at_most_one_line`, a quoted label containing a
   line break (one interpretation then spans two physical lines; `stdout : List (List Char)` has one
   entry per `writeln!`, not per physical line), `RUST_LOG` output on stderr. -/
 
@@ -658,6 +663,53 @@ theorem stmrew_loses_model_on_duplicate_condition :
 #guard (CliM.runText CliM.drvWorld 10 ⟨.hybrid, { stm := true }, .none, .simple⟩ "s(a).ac(a,c(f)).ac(a,c(v)).".toList).stdout.map String.ofList == ["T(a) "]
 #guard (CliM.runText CliM.drvWorld 10 ⟨.hybrid, { stmrew := true }, .none, .simple⟩ "s(a).ac(a,c(f)).ac(a,c(v)).".toList).stdout == []
 #guard (CliM.runText CliM.drvWorld 10 ⟨.biodivine, { stmrew := true }, .none, .simple⟩ "s(a).ac(a,c(f)).ac(a,c(v)).".toList).stdout == []
+
+/-! ### the CLI with a file system (`--export`, `--import`): an extension of `runText` -/
+
+/-- **without `--export` / `--import` the run with a file system is `runText`** and the file system is
+untouched: every theorem about `runText` (and the driver tie `clirun`) carries over to `runTextIO` -/
+theorem io_without_options_is_runText {T : Type} (W : CliM.World T) (fuel : Nat) (i : CliM.Inv) (ord : CliM.Orders)
+    (t : List Char) (fs : CliM.FS) :
+    CliM.runTextIO W fuel ⟨i, none, false⟩ ord t fs = ⟨CliM.runText W fuel i t, fs, false⟩ := by
+  have h1 := CliM.runTextIO_plain W fuel i none ord t fs
+  have h2 : (CliM.runTextIO W fuel ⟨i, none, false⟩ ord t fs).fs = fs ∧
+      (CliM.runTextIO W fuel ⟨i, none, false⟩ ord t fs).refused = false := by
+    by_cases hm : i.mode = .naive
+    · cases ho : CliM.objOf W ⟨i, none, false⟩ t with
+      | none => rw [CliM.runTextIO_naive_none W fuel _ ord t fs hm ho]; exact ⟨rfl, rfl⟩
+      | some o =>
+        rw [CliM.runTextIO_naive W fuel _ ord t fs hm o ho, CliM.runObjIO_none fuel _ ord o fs rfl]; exact ⟨rfl, rfl⟩
+    · rw [CliM.runTextIO_other W fuel _ ord t fs hm]; exact ⟨rfl, rfl⟩
+  generalize CliM.runTextIO W fuel ⟨i, none, false⟩ ord t fs = r at h1 h2
+  obtain ⟨a, b, c⟩ := r
+  simp only at h1 h2
+  rw [h1, h2.1, h2.2]
+
+/-- `--export` (any path, existing or not) changes neither the exit status nor stdout; the `hybrid`
+and `biodivine` arms ignore both options (`--import` there hands the JSON text to the ADF parser) -/
+theorem io_export_keeps_output {T : Type} (W : CliM.World T) (fuel : Nat) (io : CliM.InvIO) (ord : CliM.Orders)
+    (t : List Char) (fs : CliM.FS) :
+    (io.imp = false → (CliM.runTextIO W fuel io ord t fs).out = CliM.runText W fuel io.inv t) ∧
+    (io.inv.mode ≠ .naive → CliM.runTextIO W fuel io ord t fs = ⟨CliM.runText W fuel io.inv t, fs, false⟩) := by
+  refine ⟨fun h => ?_, fun hm => CliM.runTextIO_other W fuel io ord t fs hm⟩
+  obtain ⟨i, e, imp⟩ := io
+  simp only at h
+  subst h
+  exact CliM.runTextIO_plain W fuel i e ord t fs
+
+-- the model run on a text (evaluator): export to a free path, refusal on an existing one (exit 0, same
+-- stdout, file untouched - also an EMPTY file), import of the written text prints the same lines
+#guard
+  let io : CliM.InvIO := ⟨⟨.naive, exAll, .lx, .simple⟩, some "x.json".toList, false⟩
+  let fs : CliM.FS := [("empty".toList, [])]
+  let r1 := CliM.runTextIO CliM.drvWorld 1000 io ⟨[("b", 1), ("a", 0)], []⟩ CliMP.exText fs
+  let r2 := CliM.runTextIO CliM.drvWorld 1000 { io with exportTo := some "empty".toList } ⟨[], []⟩ CliMP.exText r1.fs
+  let r3 := CliM.runFileIO CliM.drvWorld 1000 ⟨⟨.naive, exAll, .none, .simple⟩, some "x.json".toList, true⟩ ⟨[], []⟩ "x.json".toList r2.fs
+  r1.out == CliM.runText CliM.drvWorld 1000 io.inv CliMP.exText && r1.out.exit == 0 && r1.out.stdout.length == 8 &&
+  r1.fs.map (·.1) == ["x.json".toList, "empty".toList] && !r1.refused &&
+  r2.fs == r1.fs && r2.refused && r2.out == r1.out &&
+  r3.out == r1.out && r3.refused && r3.fs == r1.fs
+
 
 end C15
 #print axioms C15.hybrid_arm_runs_the_verified_bridge
@@ -677,3 +729,5 @@ end C15
 #print axioms C15.counter_adds_at_most_one_line
 #print axioms C15.counter_ignored
 #print axioms C15.library_arms_panic_on_special_labels
+#print axioms C15.io_without_options_is_runText
+#print axioms C15.io_export_keeps_output
